@@ -197,7 +197,9 @@ for k, what in (("core", "ten usual spellings (1, -1, 1e3, 0x1F, ~, null, True, 
                 ("num", "numbers with an explicit plus sign or without an integer part (+1, .5, -.5, +.5e1)"),
                 ("inf", "signed infinities (-.inf, +.inf, -.INF)"),
                 ("blank", "leading and trailing blanks (` a`, `a `, a<TAB>, `a b `)"),
-                ("spec-sanity", "vacuity guard: needs_quote rejects ordinary words and near-numbers (a b, +, ., +a, 1a, e1, 0x) and accepts 1., 1.5E-3, 0o17")):
+                ("inside", "what ends a plain scalar inside the string: blank-then-# (comment; with a space and with a tab), colon-then-blank and a trailing colon (mapping indicator), a line break"),
+                ("first", "indicators in first position (#a, `- a`, a lone -, \"a)"),
+                ("spec-sanity", "vacuity guard: needs_quote rejects ordinary words and near-numbers (a b, +, ., +a, 1a, e1, 0x) and accepts 1., 1.5E-3, 0o17; a#b, a:b, -a, a-, a[b are outside")):
     ob(f"O-C14-yaml-quote-{k}", ["C14"], F, "c14_yaml_quote_" + k.replace("-", "_"), (YQ + what) if k != "spec-sanity" else what, [FM + "write/yaml.rs::must_quote", FM + "write/yaml.rs::ns_plain_one_line"], label="point", kind="point")
 
 CFG = {
